@@ -6,26 +6,45 @@ LEVEL = "exploration"
 FLAVOUR = "plain"
 TIMEOUT = 600
 RULE = ("file alphabet: 5 single files with the same columns (3 / 1 / 0 / 3 / 4 rows, one with two row groups, "
-        "categorical label sets identical / disjoint / overlapping, codecs) and 3 hive sub-datasets; cell = "
+        "categorical label sets identical / disjoint / overlapping, one NULL in the categorical column, codecs) and 3 "
+        "hive sub-datasets; cell = "
         "directory shape {flat, hive k=v, drill, two-level hive k=v/m=w, two-level drill} x entry {list of paths, list of ParquetFile objects, directory "
-        "without _metadata, glob, merge() then re-open} x verify {False, True} x root {inferred, given}; inside: "
+        "without _metadata, glob, merge() then re-open, single path + root} x verify {False, True} x root {inferred, given, "
+        "given with a trailing slash}; inside: "
         "every ordered list of 1..3 distinct files (quick) / 1..4 (thorough); lists of >= 3 take the "
-        "footer-gathering fast path, shorter ones and verify=True the legacy path; plus lists with one "
-        "schema-incompatible file under verify=True (must raise). Oracle: concatenation, in list order (sorted path "
-        "order for directory / glob), of the individual reads; total row count; partition columns from directory "
-        "names; categoricals by label; non-trivial = a dataset with >= 1 row compared")
+        "footer-gathering fast path, shorter ones and verify=True the legacy path. Path spelling {absolute, relative to "
+        "the working directory, './'-prefixed, bare names in the working directory} x shapes flat / hive / two-level hive "
+        "(verify=False in quick, both in thorough); memory file-system with three spellings x {fs=, open_with=}. Directory content: the five files plus stray non-Parquet files, a "
+        "_common_metadata and one '.parq' file; every directory holding a subset of 1..3 of the files. Sub-datasets "
+        "{plain, partitioned, categorical} x {paths, objects, merge} x verify x root, lists of 2..3; lists mixing files and "
+        "sub-datasets. Schema-incompatible file (7 kinds: one dtype, one name, one extra column, column order, text/bytes, "
+        "everything) at every position x {paths, objects, merge() default, directory, glob} under verification (must raise). "
+        "Categorical label unions of 127 / 128 / 300 labels (quick) and 32768 / 40000 (thorough) from files below each width; "
+        "default and stored index; footer of a later file sized -2..+10 bytes around the fast path's tail-fetch size. "
+        "Oracle: concatenation, in list order (sorted path "
+        "order for directory / glob), of the rows written; total row count from count(), the frame and the footer's "
+        "num_rows; row-group count; dtypes of the int and categorical column; fresh RangeIndex; partition columns from "
+        "directory names and, for k=v directories, count() under a filter on them; categoricals by label; for merge() the _metadata bytes "
+        "(spec-level reader: num_rows, file_path of every row group) and _common_metadata (schema, no row groups); "
+        "non-trivial = a dataset with >= 1 row compared")
 ASSUMPTIONS = ["with an inferred root, partition columns are judged only when the listed files lie in >= 2 distinct "
-               "top-level directories (documented ambiguity)", "a path is not repeated inside one list"]
+               "top-level directories (documented ambiguity)", "a path is not repeated inside one list",
+               "a file that differs only in pandas-level typing (categorical vs plain text, nullability) has the same "
+               "Parquet schema and is not expected to be rejected"]
 
 KEYS = [1, 2, 1, 3, 2]
 # second directory level (shapes hive2 / drill2): constant below a varying first level for some pairs of files
 # (files 0,1,3: m=7) and varying below a constant first level for others (files 0,2: k=1, m=7/8)
 KEYS2 = [7, 7, 8, 7, 8]
 DEPTH = {"flat": 0, "hive": 1, "drill": 1, "hive2": 2, "drill2": 2}
+NRG = [1, 1, 0, 1, 2]      # row groups per file
+PCOLS = {"flat": [], "hive": ["k"], "drill": ["dir0"], "hive2": ["k", "m"], "drill2": ["dir0", "dir1"]}
+ODDS = ["all", "a_float", "a_int32", "renamed", "extra", "order", "s_bytes"]
 
 
 def points(tier):
     pts = []
+    ml = 4 if tier == "thorough" else 3
     for shape in ("flat", "hive", "drill", "hive2", "drill2"):
         for entry in ("paths", "objects", "dir", "glob", "merge"):
             if DEPTH[shape] == 2 and entry == "objects":
@@ -35,11 +54,66 @@ def points(tier):
                     if entry in ("dir", "glob") and root == "given" and shape == "flat":
                         continue
                     pts.append({"shape": shape, "entry": entry, "verify": verify, "root": root,
-                                "maxlen": 4 if tier == "thorough" else 3})
-    for n in (2, 3):
+                                "maxlen": ml})
+    # entry: one path string + root (lists of one file)
+    for shape in ("flat", "hive", "drill", "hive2", "drill2"):
+        pts.append({"shape": shape, "entry": "single", "verify": False, "root": "given", "maxlen": 1})
+    pts.append({"shape": "hive", "entry": "single", "verify": True, "root": "given_slash", "maxlen": 1})
+    # root spelled with a trailing slash
+    for entry in ("paths", "merge", "dir"):
         for verify in (False, True):
-            pts.append({"shape": "subdatasets", "entry": "paths", "verify": verify, "root": "inferred", "maxlen": n})
-    pts.append({"shape": "incompatible", "entry": "paths", "verify": True, "root": "inferred", "maxlen": 3})
+            pts.append({"shape": "hive", "entry": entry, "verify": verify, "root": "given_slash", "maxlen": ml})
+    # path spelling (verify=True only changes the code path of lists of >= 3: thorough tier)
+    verifies = (False, True) if tier == "thorough" else (False,)
+    for shape, entries in (("flat", ("paths", "objects", "merge", "dir", "glob")),
+                           ("hive", ("paths", "objects", "merge", "dir", "glob", "single")),
+                           ("hive2", ("paths", "merge"))):
+        for entry in entries:
+            for verify in verifies:
+                for root in ("inferred", "given"):
+                    if entry in ("dir", "glob") and root == "given" and shape == "flat":
+                        continue
+                    if entry == "single" and (root == "inferred" or verify):
+                        continue
+                    pts.append({"shape": shape, "entry": entry, "verify": verify, "root": root,
+                                "maxlen": 1 if entry == "single" else ml, "spell": "rel"})
+    for shape in ("flat", "hive"):
+        for verify in verifies:
+            for root in ("inferred", "given"):
+                pts.append({"shape": shape, "entry": "paths", "verify": verify, "root": root, "maxlen": ml,
+                            "spell": "dot"})
+    for entry in ("paths", "merge"):
+        for verify in verifies:
+            pts.append({"shape": "flat", "entry": entry, "verify": verify, "root": "inferred", "maxlen": ml,
+                        "spell": "bare"})
+    # directory content
+    for shape in ("flat", "hive", "drill", "hive2", "drill2"):
+        for entry in ("dir", "glob"):
+            for verify in (False, True):
+                pts.append({"shape": shape, "entry": entry, "verify": verify, "root": "inferred", "maxlen": 3,
+                            "dirvar": "strays"})
+                pts.append({"shape": shape, "entry": entry, "verify": verify, "root": "inferred", "maxlen": 3,
+                            "dirvar": "subsets"})
+    # sub-datasets
+    for kind in ("plain", "part", "cat"):
+        for entry in ("paths", "objects", "merge"):
+            for verify in (False, True):
+                for root in ("inferred", "given"):
+                    pts.append({"shape": "subdatasets", "kind": kind, "entry": entry, "verify": verify, "root": root,
+                                "maxlen": 3})
+    pts.append({"shape": "mixed", "entry": "paths", "verify": False, "root": "inferred", "maxlen": 3})
+    for entry in ("paths", "objects", "merge", "dir", "glob"):
+        pts.append({"shape": "incompatible", "entry": entry, "verify": True, "root": "inferred", "maxlen": 3})
+    pts.append({"shape": "catwidth", "entry": "paths", "verify": False, "root": "inferred", "maxlen": 3,
+                "sizes": [[63, 64], [64, 64], [127, 1], [100, 100, 100]]})
+    if tier == "thorough":
+        pts.append({"shape": "catwidth", "entry": "paths", "verify": False, "root": "inferred", "maxlen": 3,
+                    "sizes": [[32767, 1], [20000, 20000], [16000, 16000, 16000]]})
+    for kind in ("range", "stored"):
+        for entry in ("paths", "merge"):
+            pts.append({"shape": "index", "kind": kind, "entry": entry, "verify": False, "root": "inferred", "maxlen": 3})
+    pts.append({"shape": "footer", "entry": "paths", "verify": False, "root": "inferred", "maxlen": 3})
+    pts.append({"shape": "memfs", "entry": "paths", "verify": False, "root": "inferred", "maxlen": ml})
     return pts
 
 
@@ -60,7 +134,7 @@ def make_files(d, shape):
         ([(1, "x", "u"), (2, None, "v"), (3, "z", "u")], ["u", "v"], None, None),
         ([(4, "w", "w")], ["w"], None, None),
         ([], ["u", "v"], None, None),
-        ([(5, "q", "v"), (6, "r", "w"), (7, None, "v")], ["v", "w"], "SNAPPY", None),
+        ([(5, "q", "v"), (6, "r", "w"), (7, None, None)], ["v", "w"], "SNAPPY", None),
         ([(8, "a", "u"), (9, "b", "v"), (10, "c", "u"), (11, "d", "v")], ["u", "v"], None, [0, 2]),
     ]
     out = []
@@ -94,18 +168,85 @@ def read_rows(pf, pcols):
     return rows, keys, df
 
 
+def _spec_footer(path):
+    from mc.specpq import file as SF
+    with open(path, "rb") as f:
+        return SF.read_footer(f.read(), metadata_only=True).fmd
+
+
+def check_summary_files(out_fn, file_paths, file_nrg, nrows, bad, what):
+    """the bytes merge() wrote, through the spec-level reader: _metadata holds the total row count and, for every row
+    group, the path of its file relative to the directory of _metadata (other column chunks: the same path or none);
+    _common_metadata holds the same schema and no row groups."""
+    import os
+    out_fn = os.path.abspath(out_fn)
+    base = os.path.dirname(out_fn)
+    try:
+        fmd = _spec_footer(out_fn)
+    except Exception as e:
+        bad("summary_unreadable", "%s: _metadata: %s: %s" % (what, type(e).__name__, str(e)[:120]), file="_metadata")
+        return
+    if fmd.get("num_rows") != nrows:
+        bad("summary_num_rows", "%s: _metadata says num_rows=%r, the files hold %d" % (what, fmd.get("num_rows"), nrows))
+    exp_paths = [os.path.relpath(p, base) for p, n in zip(file_paths, file_nrg) for _ in range(n)]
+    got_first = [(rg["columns"][0].get("file_path") if rg.get("columns") else None) for rg in fmd.get("row_groups") or []]
+    if got_first != exp_paths:
+        bad("summary_file_path", "%s: _metadata row groups point to %r, expected %r" % (what, got_first, exp_paths))
+    else:
+        for rg, ep in zip(fmd.get("row_groups") or [], exp_paths):
+            others = {c.get("file_path") for c in rg["columns"][1:]} - {None, ep}
+            if others:
+                bad("summary_file_path", "%s: a later column chunk points to %r, the first to %r" % (what, sorted(others), ep),
+                    chunk="later")
+                break
+    cm = os.path.join(base, "_common_metadata")
+    try:
+        cmd = _spec_footer(cm)
+    except Exception as e:
+        bad("summary_unreadable", "%s: _common_metadata: %s: %s" % (what, type(e).__name__, str(e)[:120]),
+            file="_common_metadata")
+        return
+    if cmd.get("row_groups"):
+        bad("common_metadata", "%s: _common_metadata carries %d row groups" % (what, len(cmd["row_groups"])), part="row_groups")
+    names = lambda m: [(e.get("name"), e.get("type"), e.get("converted_type")) for e in m.get("schema") or []]
+    if names(cmd) != names(fmd):
+        bad("common_metadata", "%s: _common_metadata schema %r, _metadata %r" % (what, names(cmd), names(fmd)), part="schema")
+
+
 def run(p):
-    import glob as _glob
+    shape = p["shape"]
+    if shape == "subdatasets":
+        return run_sub(p)
+    if shape == "mixed":
+        return run_mixed(p)
+    if shape == "incompatible":
+        return run_incompatible(p)
+    if shape == "catwidth":
+        return run_catwidth(p)
+    if shape == "index":
+        return run_index(p)
+    if shape == "footer":
+        return run_footer(p)
+    if shape == "memfs":
+        return run_memfs(p)
+    import os
+    cwd = os.getcwd()
+    try:
+        return run_lattice(p)
+    finally:
+        os.chdir(cwd)
+
+
+def run_lattice(p):
     import os
     import shutil
+    import pandas as pd
     import fastparquet
     from fastparquet import writer
     from mc.scratch import scratch
     shape, entry, verify, root_mode, maxlen = p["shape"], p["entry"], p["verify"], p["root"], p["maxlen"]
-    if shape == "subdatasets":
-        return run_sub(p)
-    if shape == "incompatible":
-        return run_incompatible(p)
+    spell = p.get("spell", "abs")
+    dirvar = p.get("dirvar")
     sigs = {}
     detail = [""]
     ctx = {}
@@ -113,6 +254,10 @@ def run(p):
 
     def bad(symptom, msg, **extra):
         s = {"shape": shape, "entry": entry, "verify": verify, "root": root_mode, "symptom": symptom}
+        if spell != "abs":
+            s["spell"] = spell
+        if dirvar:
+            s["dirvar"] = dirvar
         s.update(ctx)
         s.update(extra)
         k = repr(sorted(s.items(), key=str))
@@ -124,50 +269,104 @@ def run(p):
     d = scratch()
     files = make_files(d, shape)
     rootdir = os.path.join(d, "root")
-    pcols = {"flat": [], "hive": ["k"], "drill": ["dir0"], "hive2": ["k", "m"], "drill2": ["dir0", "dir1"]}[shape]
+    pcols = PCOLS[shape]
+    suffix_glob = "*.parquet"
+    if dirvar == "strays":
+        # things a directory listing must skip, and the second suffix it must take
+        first_dir = os.path.dirname(files[0][0])
+        with open(os.path.join(rootdir, "README.txt"), "w") as f:
+            f.write("not a parquet file\n")
+        with open(os.path.join(first_dir, "_SUCCESS"), "w") as f:
+            pass
+        with open(os.path.join(first_dir, ".f0.parquet.crc"), "wb") as f:
+            f.write(b"\x00\x01crc")
+        with open(os.path.join(first_dir, "f0.parquet.txt"), "w") as f:
+            f.write("PAR1 no PAR1")
+        writer.write_common_metadata(os.path.join(rootdir, "_common_metadata"), fastparquet.ParquetFile(files[0][0]).fmd)
+        newp = files[3][0][:-len(".parquet")] + ".parq"
+        os.rename(files[3][0], newp)
+        files[3] = (newp,) + files[3][1:]
+    if spell in ("rel", "dot"):
+        os.chdir(d)
+    elif spell == "bare":
+        os.chdir(rootdir)
+
+    def sp(path):
+        """the spelling under which a path is handed to the library"""
+        if spell == "abs":
+            return path
+        r = os.path.relpath(path, os.getcwd())
+        return "./" + r if spell == "dot" else r
+
     lists = []
     for n in range(1, maxlen + 1):
         lists += list(itertools.permutations(range(5), n))
     if entry in ("dir", "glob"):
         lists = [tuple(range(5))]      # the directory content is what it is
-    for lst in lists:
-        paths = [files[i][0] for i in lst]
+        if dirvar == "subsets":
+            lists = [c for n in (1, 2, 3) for c in itertools.combinations(range(5), n)]
+    for li, lst in enumerate(lists):
+        use = files
+        rootdir_l = rootdir
+        if dirvar == "subsets":
+            # a directory of its own holding just these files, at their places below its root
+            rootdir_l = os.path.join(d, "s%d" % li, "root")
+            use = list(files)
+            for i in lst:
+                np_ = os.path.join(rootdir_l, os.path.relpath(files[i][0], rootdir))
+                os.makedirs(os.path.dirname(np_), exist_ok=True)
+                shutil.copyfile(files[i][0], np_)
+                use[i] = (np_,) + files[i][1:]
+        paths = [use[i][0] for i in lst]
         order = list(lst)
         ctx.clear()
         ctx.update({"nfiles": len(lst), "sorted": list(lst) == sorted(lst), "path": "fast" if (len(lst) >= 3 and not verify and entry in ("paths", "dir", "glob", "merge")) else "legacy"})
         what = "%s %s verify=%s root=%s files=%r" % (shape, entry, verify, root_mode, list(lst))
+        if spell != "abs":
+            what += " spelling=" + spell
+        if dirvar:
+            what += " dir=" + dirvar
         kw = {"verify": verify}
+        rootarg = None
         if root_mode == "given":
-            kw["root"] = rootdir
+            rootarg = sp(rootdir_l)
+        elif root_mode == "given_slash":
+            rootarg = sp(rootdir_l) + "/"
+        if rootarg is not None:
+            kw["root"] = rootarg
+        out_fn = None
         try:
             if entry == "paths":
-                pf = fastparquet.ParquetFile(paths, **kw)
+                pf = fastparquet.ParquetFile([sp(x) for x in paths], **kw)
+            elif entry == "single":
+                pf = fastparquet.ParquetFile(sp(paths[0]), **kw)
             elif entry == "objects":
-                pf = fastparquet.ParquetFile([fastparquet.ParquetFile(x) for x in paths], **kw)
+                pf = fastparquet.ParquetFile([fastparquet.ParquetFile(sp(x)) for x in paths], **kw)
             elif entry == "dir":
-                pf = fastparquet.ParquetFile(rootdir, **kw)
-                order = sorted(range(5), key=lambda i: files[i][0])
+                pf = fastparquet.ParquetFile(sp(rootdir_l), **kw)
+                order = sorted(lst, key=lambda i: use[i][0])
             elif entry == "glob":
-                pat = os.path.join(rootdir, "/".join(["*"] * DEPTH[shape] + ["*.parquet"]))
+                pat = os.path.join(sp(rootdir_l), "/".join(["*"] * DEPTH[shape] + [suffix_glob]))
                 pf = fastparquet.ParquetFile(pat, **kw)
-                order = sorted(range(5), key=lambda i: files[i][0])
+                order = sorted((i for i in lst if use[i][0].endswith(".parquet")), key=lambda i: use[i][0])
             elif entry == "merge":
                 for f in ("_metadata", "_common_metadata"):
-                    for base in {os.path.dirname(x) for x in paths} | {rootdir}:
+                    for base in {os.path.dirname(x) for x in paths} | {rootdir_l}:
                         try:
                             os.unlink(os.path.join(base, f))
                         except OSError:
                             pass
                 mk = {"verify_schema": verify}
-                if root_mode == "given":
-                    mk["root"] = rootdir
-                out = writer.merge(paths, **mk)
+                if rootarg is not None:
+                    mk["root"] = rootarg
+                out = writer.merge([sp(x) for x in paths], **mk)
+                out_fn = os.path.abspath(out.fn)
                 pf = fastparquet.ParquetFile(out.fn)
         except Exception as e:
             bad("open_raised", "%s: %s: %s" % (what, type(e).__name__, str(e)[:160]), exc=type(e).__name__)
             continue
         datasets += 1
-        exp = [r for i in order for r in files[i][1]]
+        exp = [r for i in order for r in use[i][1]]
         try:
             rows, keys, df = read_rows(pf, pcols)
         except Exception as e:
@@ -178,107 +377,535 @@ def run(p):
         if pf.count() != len(exp) or len(rows) != len(exp):
             bad("row_count", "%s: count()=%d, %d rows read, the files hold %d" % (what, pf.count(), len(rows), len(exp)))
             continue
+        if pf.fmd.num_rows != len(exp):
+            bad("footer_num_rows", "%s: the dataset's footer says num_rows=%r, the files hold %d" % (what, pf.fmd.num_rows, len(exp)))
+        if len(pf.row_groups) != sum(NRG[i] for i in order):
+            bad("row_group_count", "%s: %d row groups, the files hold %d" % (what, len(pf.row_groups), sum(NRG[i] for i in order)))
         if rows != exp:
             col = "order" if sorted(rows, key=repr) == sorted(exp, key=repr) else next(
                 ("asc"[ci] for ci in range(3) if [r[ci] for r in rows] != [e[ci] for e in exp]), "?")
             bad("content", "%s: rows %r, concatenation of the files %r" % (what, rows[:8], exp[:8]), col=col)
             continue
+        if str(df["a"].dtype) != "int64":
+            bad("dtype", "%s: column a comes back as %s, every file holds int64" % (what, df["a"].dtype), col="a")
+        if exp and not isinstance(df["c"].dtype, pd.CategoricalDtype):
+            bad("dtype", "%s: column c comes back as %s, every file holds a categorical" % (what, df["c"].dtype), col="c")
+        if list(df.index) != list(range(len(exp))) or df.index.name is not None:
+            bad("index", "%s: index %r (name %r) for files written without index" % (what, list(df.index)[:8], df.index.name))
+        if out_fn is not None:
+            check_summary_files(out_fn, [use[i][0] for i in order], [NRG[i] for i in order], len(exp), bad, what)
         if pcols and exp:      # files without row groups carry no paths to derive partition values from
             # only files with rows contribute paths; with an inferred root every level is derivable when those
             # files lie in >= 2 distinct top-level directories
-            distinct_dirs = len({files[i][2][0] for i in order if files[i][1]})
-            if root_mode == "given" or distinct_dirs >= 2:
+            distinct_dirs = len({use[i][2][0] for i in order if use[i][1]})
+            if root_mode in ("given", "given_slash") or distinct_dirs >= 2:
                 for lvl, pcol in enumerate(pcols):
-                    expk = [files[i][2][lvl] for i in order for r in files[i][1]]
+                    expk = [use[i][2][lvl] for i in order for r in use[i][1]]
                     if keys[lvl] is None:
                         bad("partition_column", "%s: no partition column %s in the frame (columns %r)" % (what, pcol, list(df.columns)), level=lvl)
                     else:
                         got = [int(x) if isinstance(x, str) and x.isdigit() else x for x in keys[lvl]]
                         if got != expk:
                             bad("partition_column", "%s: partition values %s=%r, directories say %r" % (what, pcol, got, expk), level=lvl)
+                        elif lvl == 0 and shape in ("hive", "hive2"):
+                            # row groups are selected by their k=v directory (drill directory names are not looked at
+                            # by the row-group selection, which may keep more than asked for)
+                            for v in sorted(set(expk)):
+                                try:
+                                    n = pf.count(filters=[(pcol, "==", v)])
+                                except Exception as e:
+                                    bad("partition_filter", "%s: count(filters=[(%s,==,%r)]): %s: %s" % (what, pcol, v, type(e).__name__, str(e)[:100]), exc=type(e).__name__)
+                                    break
+                                if n != expk.count(v):
+                                    bad("partition_filter", "%s: count(filters=[(%s,==,%r)])=%d, %d rows lie in that directory" % (what, pcol, v, n, expk.count(v)))
+                                    break
     ok = not sigs
     return {"ok": ok, "outcome": "concatenation" if ok else "differs", "nontrivial": nontriv > 0,
             "counts": {"datasets": datasets, "with_rows": nontriv}, "sig": list(sigs.values()) or None, "detail": detail[0]}
 
 
 def run_sub(p):
-    """lists of hive sub-datasets (directories with their own _metadata)"""
+    """lists of hive sub-datasets (directories with their own _metadata): plain, partitioned on a column, or with a
+    categorical column whose labels differ between the sub-datasets"""
     import os
     import pandas as pd
     import fastparquet
+    from fastparquet import writer
     from mc.scratch import scratch
     from mc import oracles as O
-    n, verify = p["maxlen"], p["verify"]
+    verify, entry, kind, root_mode = p["verify"], p.get("entry", "paths"), p.get("kind", "plain"), p.get("root", "inferred")
     d = scratch()
+    top = os.path.join(d, "top")
+    labels = [["u", "v"], ["w", "u"], ["v", "w"]]
     subs = []
     for i in range(3):
-        df = pd.DataFrame({"a": pd.Series([i * 10 + j for j in range(3)], dtype="int64"),
-                           "s": pd.Series(["d%d_%d" % (i, j) for j in range(3)], dtype=object)})
-        path = os.path.join(d, "sub%d" % i)
-        fastparquet.write(path, df, file_scheme="hive", row_group_offsets=[0, 2], write_index=False)
-        subs.append((path, list(zip(df["a"], df["s"]))))
+        data = {"a": pd.Series([i * 10 + j for j in range(3)], dtype="int64"),
+                "s": pd.Series(["d%d_%d" % (i, j) for j in range(3)], dtype=object)}
+        rows = [(i * 10 + j, "d%d_%d" % (i, j)) for j in range(3)]
+        kw = {"row_group_offsets": [0, 2]}
+        if kind == "cat":
+            lab = [labels[i][j % 2] for j in range(3)]
+            data["c"] = pd.Categorical(lab, categories=labels[i])
+            rows = [r + (l,) for r, l in zip(rows, lab)]
+        if kind == "part":
+            data["p"] = [1, 2, 1]
+            rows = [r + (pv,) for r, pv in zip(rows, [1, 2, 1])]
+            rows = sorted(rows, key=lambda r: r[-1])      # one directory per value, in the order of the values
+            kw = {"partition_on": ["p"]}
+        name = ("y=%d" if kind == "part" else "sub%d") % i
+        path = os.path.join(top, name)
+        fastparquet.write(path, pd.DataFrame(data), file_scheme="hive", write_index=False, **kw)
+        subs.append((path, rows, i))
+    cols = ["a", "s"] + (["c"] if kind == "cat" else []) + (["p"] if kind == "part" else [])
     sigs = {}
     detail = [""]
     datasets = 0
-    for lst in itertools.permutations(range(3), n):
-        what = "subdatasets verify=%s list=%r" % (verify, list(lst))
-        try:
-            pf = fastparquet.ParquetFile([subs[i][0] for i in lst], verify=verify)
-            df = pf.to_pandas()
-            rows = list(zip(O.series_to_list(df["a"]), O.series_to_list(df["s"])))
-        except Exception as e:
-            s = {"shape": "subdatasets", "verify": verify, "symptom": "open_raised", "exc": type(e).__name__}
-            sigs.setdefault(repr(s), s)
-            detail[0] = detail[0] or "%s: %s: %s" % (what, type(e).__name__, str(e)[:150])
-            continue
-        datasets += 1
-        exp = [r for i in lst for r in subs[i][1]]
-        if rows != exp:
-            s = {"shape": "subdatasets", "verify": verify, "symptom": "content"}
-            sigs.setdefault(repr(s), s)
-            detail[0] = detail[0] or "%s: rows %r, expected %r" % (what, rows, exp)
+
+    def bad(symptom, msg, **extra):
+        s = {"shape": "subdatasets", "kind": kind, "entry": entry, "verify": verify, "root": root_mode, "symptom": symptom}
+        s.update(extra)
+        sigs.setdefault(repr(sorted(s.items())), s)
+        detail[0] = detail[0] or msg
+
+    for n in range(2, p["maxlen"] + 1):
+        for lst in itertools.permutations(range(3), n):
+            what = "subdatasets %s %s verify=%s root=%s list=%r" % (kind, entry, verify, root_mode, list(lst))
+            paths = [subs[i][0] for i in lst]
+            kw = {"root": top} if root_mode == "given" else {}
+            try:
+                if entry == "paths":
+                    pf = fastparquet.ParquetFile(paths, verify=verify, **kw)
+                elif entry == "objects":
+                    pf = fastparquet.ParquetFile([fastparquet.ParquetFile(x) for x in paths], verify=verify, **kw)
+                else:
+                    for f in ("_metadata", "_common_metadata"):
+                        try:
+                            os.unlink(os.path.join(top, f))
+                        except OSError:
+                            pass
+                    out = writer.merge(paths, verify_schema=verify, **kw)
+                    pf = fastparquet.ParquetFile(out.fn)
+                df = pf.to_pandas()
+                rows = list(zip(*[O.series_to_list(df[c]) for c in cols]))
+            except Exception as e:
+                bad("open_raised", "%s: %s: %s" % (what, type(e).__name__, str(e)[:150]), exc=type(e).__name__)
+                continue
+            datasets += 1
+            exp = [r for i in lst for r in subs[i][1]]
+            if kind == "part":
+                rows = [r[:-1] + (int(r[-1]) if isinstance(r[-1], str) and r[-1].isdigit() else r[-1],) for r in rows]
+            if pf.count() != len(exp) or pf.fmd.num_rows != len(exp):
+                bad("row_count", "%s: count()=%r, footer num_rows=%r, the sub-datasets hold %d" % (what, pf.count(), pf.fmd.num_rows, len(exp)))
+            if rows != exp:
+                bad("content", "%s: rows %r, expected %r" % (what, rows, exp))
+                continue
+            if kind == "part":
+                # the directory of each sub-dataset is a partition level of its own
+                expy = [subs[i][2] for i in lst for r in subs[i][1]]
+                if "y" not in df.columns:
+                    bad("partition_column", "%s: no column y (columns %r)" % (what, list(df.columns)))
+                else:
+                    goty = [int(x) if isinstance(x, str) and x.isdigit() else x for x in O.series_to_list(df["y"])]
+                    if goty != expy:
+                        bad("partition_column", "%s: y=%r, directories say %r" % (what, goty, expy))
     ok = not sigs
     return {"ok": ok, "outcome": "concatenation" if ok else "differs", "nontrivial": datasets > 0,
             "counts": {"datasets": datasets}, "sig": list(sigs.values()) or None, "detail": detail[0]}
 
 
-def run_incompatible(p):
-    """verify=True must reject a file whose schema differs"""
+def run_mixed(p):
+    """lists that mix single files and hive sub-datasets lying in one directory"""
     import os
     import pandas as pd
     import fastparquet
     from mc.scratch import scratch
+    from mc import oracles as O
+    d = scratch()
+    items = {}
+    for i, name in enumerate(["sub0", "sub1", "one.parquet", "two.parquet"]):
+        df = pd.DataFrame({"a": pd.Series([i * 10 + j for j in range(3)], dtype="int64"),
+                           "s": pd.Series(["d%d_%d" % (i, j) for j in range(3)], dtype=object)})
+        path = os.path.join(d, "top", name)
+        os.makedirs(os.path.dirname(path), exist_ok=True)
+        if name.startswith("sub"):
+            fastparquet.write(path, df, file_scheme="hive", row_group_offsets=[0, 2], write_index=False)
+        else:
+            fastparquet.write(path, df, write_index=False)
+        items[name] = (path, list(zip(df["a"].tolist(), df["s"].tolist())))
+    sigs = {}
+    detail = [""]
+    datasets = 0
+    for lst in (["sub0", "one.parquet"], ["one.parquet", "sub0"], ["one.parquet", "two.parquet", "sub1"],
+                ["one.parquet", "sub0", "sub1"], ["sub1", "one.parquet", "two.parquet"]):
+        what = "mixed list=%r" % lst
+        base = {"shape": "mixed", "first": "sub" if lst[0].startswith("sub") else "file", "nitems": len(lst)}
+        try:
+            pf = fastparquet.ParquetFile([items[x][0] for x in lst])
+        except Exception as e:
+            s = dict(base, symptom="open_raised", exc=type(e).__name__)
+            sigs.setdefault(repr(sorted(s.items())), s)
+            detail[0] = detail[0] or "%s: %s: %s" % (what, type(e).__name__, str(e)[:150])
+            continue
+        try:
+            df = pf.to_pandas()
+            rows = list(zip(O.series_to_list(df["a"]), O.series_to_list(df["s"])))
+        except Exception as e:
+            s = dict(base, symptom="read_raised", exc=type(e).__name__)
+            sigs.setdefault(repr(sorted(s.items())), s)
+            detail[0] = detail[0] or "%s: %s: %s" % (what, type(e).__name__, str(e)[:150])
+            continue
+        datasets += 1
+        exp = [r for x in lst for r in items[x][1]]
+        if rows != exp:
+            s = dict(base, symptom="content")
+            sigs.setdefault(repr(sorted(s.items())), s)
+            detail[0] = detail[0] or "%s: rows %r, expected %r" % (what, rows, exp)
+    ok = not sigs
+    return {"ok": ok, "outcome": "concatenation" if ok else "differs", "nontrivial": True,
+            "counts": {"datasets": datasets}, "sig": list(sigs.values()) or None, "detail": detail[0]}
+
+
+def odd_frame(kind):
+    """a frame whose Parquet schema differs from the five files' (a int64, s text, c categorical text) in one respect"""
+    import pandas as pd
+    if kind == "all":
+        return pd.DataFrame({"a": [1.5, 2.5], "s": ["x", "y"], "zz": [1, 2]})
+    a = pd.Series([1, 2], dtype={"a_float": "float64", "a_int32": "int32"}.get(kind, "int64"))
+    s = pd.Series([b"x", b"y"] if kind == "s_bytes" else ["x", "y"], dtype=object)
+    c = pd.Categorical(["u", "v"], categories=["u", "v"])
+    df = pd.DataFrame({"a": a, ("t" if kind == "renamed" else "s"): s, "c": c})
+    if kind == "extra":
+        df["zz"] = [1, 2]
+    if kind == "order":
+        df = df[["s", "a", "c"]]
+    return df
+
+
+def run_incompatible(p):
+    """verification must reject a file whose schema differs: at every position, through every entry point"""
+    import os
+    import shutil
+    import fastparquet
+    from fastparquet import writer
+    from mc.scratch import scratch
+    entry = p["entry"]
     d = scratch()
     files = make_files(d, "flat")
-    odd = os.path.join(d, "root", "odd.parquet")
-    fastparquet.write(odd, pd.DataFrame({"a": [1.5, 2.5], "s": ["x", "y"], "zz": [1, 2]}), write_index=False)
+    rootdir = os.path.join(d, "root")
     sigs = {}
     detail = [""]
     n = 0
-    for pos in range(3):
-        for others in itertools.permutations([0, 1, 3], 2):
-            paths = [files[i][0] for i in others]
-            paths.insert(pos, odd)
-            if pos == 0:
-                continue     # the first file defines the schema
+
+    def accepted(kind, pos, what):
+        s = {"shape": "incompatible", "entry": entry, "symptom": "accepted", "pos": pos, "odd": kind}
+        sigs.setdefault(repr(sorted(s.items())), s)
+        detail[0] = detail[0] or "%s: a file with a different schema (%s) at position %d was accepted under verification" % (what, kind, pos)
+
+    for kind in ODDS:
+        odd = os.path.join(d, "odd_%s.parquet" % kind)
+        fastparquet.write(odd, odd_frame(kind), write_index=False)
+        if entry in ("dir", "glob"):
+            # a directory of its own with two of the files and the odd one sorting first / between / last
+            for pos, name in enumerate(["e.parquet", "f05.parquet", "g.parquet"]):
+                dd = os.path.join(d, "inc_%s_%d" % (kind, pos))
+                os.makedirs(dd)
+                shutil.copyfile(files[0][0], os.path.join(dd, "f0.parquet"))
+                shutil.copyfile(files[1][0], os.path.join(dd, "f1.parquet"))
+                shutil.copyfile(odd, os.path.join(dd, name))
+                n += 1
+                try:
+                    fastparquet.ParquetFile(dd if entry == "dir" else os.path.join(dd, "*.parquet"), verify=True)
+                except Exception:
+                    continue
+                accepted(kind, pos, "%s %s" % (entry, sorted(os.listdir(dd))))
+            continue
+        oddp = os.path.join(rootdir, "odd_%s.parquet" % kind)
+        shutil.copyfile(odd, oddp)
+        cases = []
+        for pos in range(3):
+            for others in itertools.permutations([0, 1, 3], 2):
+                paths = [files[i][0] for i in others]
+                paths.insert(pos, oddp)
+                cases.append((pos, paths))
+        for i in (0, 1, 3):
+            cases.append((1, [files[i][0], oddp]))
+            cases.append((0, [oddp, files[i][0]]))
+        for pos, paths in cases:
             n += 1
             try:
-                fastparquet.ParquetFile(paths, verify=True)
+                if entry == "paths":
+                    fastparquet.ParquetFile(paths, verify=True)
+                elif entry == "objects":
+                    fastparquet.ParquetFile([fastparquet.ParquetFile(x) for x in paths], verify=True)
+                else:
+                    for f in ("_metadata", "_common_metadata"):
+                        try:
+                            os.unlink(os.path.join(rootdir, f))
+                        except OSError:
+                            pass
+                    writer.merge(paths)       # verification is merge()'s default
             except Exception:
                 continue
-            s = {"shape": "incompatible", "symptom": "accepted", "pos": pos}
-            sigs.setdefault(repr(s), s)
-            detail[0] = detail[0] or "a file with a different schema at position %d was accepted under verify=True" % pos
+            accepted(kind, pos, "%s %r" % (entry, [os.path.basename(x) for x in paths]))
     ok = not sigs
     return {"ok": ok, "outcome": "rejected" if ok else "accepted", "nontrivial": n > 0,
             "counts": {"datasets": n}, "sig": list(sigs.values()) or None, "detail": detail[0]}
 
 
+def run_catwidth(p):
+    """files whose dictionaries each fit a narrow code type while their union does not"""
+    import os
+    import pandas as pd
+    import fastparquet
+    from mc.scratch import scratch
+    from mc import oracles as O
+    d = scratch()
+    sigs = {}
+    detail = [""]
+    datasets = 0
+    for sizes in p["sizes"]:
+        files = []
+        for i, n in enumerate(sizes):
+            labs = ["L%d_%05d" % (i, j) for j in range(n)]
+            vals = list(labs)
+            if n > 2:
+                vals[1] = None
+            df = pd.DataFrame({"a": pd.Series(range(n), dtype="int64"), "c": pd.Categorical(vals, categories=labs)})
+            path = os.path.join(d, "w%s_%d.parquet" % ("_".join(map(str, sizes)), i))
+            fastparquet.write(path, df, write_index=False)
+            files.append((path, vals))
+        for lst in itertools.permutations(range(len(sizes))):
+            what = "label sets of %r, list %r" % (sizes, list(lst))
+            base = {"shape": "catwidth", "union": sum(sizes), "nfiles": len(lst)}
+            try:
+                pf = fastparquet.ParquetFile([files[i][0] for i in lst])
+                df = pf.to_pandas()
+                got = O.series_to_list(df["c"])
+            except Exception as e:
+                s = dict(base, symptom="read_raised", exc=type(e).__name__)
+                sigs.setdefault(repr(sorted(s.items())), s)
+                detail[0] = detail[0] or "%s: %s: %s" % (what, type(e).__name__, str(e)[:150])
+                continue
+            datasets += 1
+            exp = [v for i in lst for v in files[i][1]]
+            if got != exp:
+                k = next((j for j in range(min(len(got), len(exp))) if got[j] != exp[j]), -1)
+                s = dict(base, symptom="content")
+                sigs.setdefault(repr(sorted(s.items())), s)
+                detail[0] = detail[0] or "%s: %d labels read, %d written; first difference at row %d: %r instead of %r" % (
+                    what, len(got), len(exp), k, got[k] if 0 <= k < len(got) else None, exp[k] if 0 <= k < len(exp) else None)
+            elif not isinstance(df["c"].dtype, pd.CategoricalDtype):
+                s = dict(base, symptom="dtype")
+                sigs.setdefault(repr(sorted(s.items())), s)
+                detail[0] = detail[0] or "%s: column c comes back as %s" % (what, df["c"].dtype)
+    ok = not sigs
+    return {"ok": ok, "outcome": "concatenation" if ok else "differs", "nontrivial": datasets > 0,
+            "counts": {"datasets": datasets}, "sig": list(sigs.values()) or None, "detail": detail[0]}
+
+
+def run_index(p):
+    """files written with the default RangeIndex (kept in the pandas metadata only) or with a stored, named index"""
+    import os
+    import numpy as np
+    import pandas as pd
+    import fastparquet
+    from fastparquet import writer
+    from mc.scratch import scratch
+    from mc import oracles as O
+    kind, entry = p["kind"], p["entry"]
+    d = scratch()
+    files = []
+    for i, n in enumerate([3, 1, 0, 4]):
+        a = [10 * i + j for j in range(n)]
+        ix = [100 * i + j for j in range(n)]
+        if kind == "range":
+            df = pd.DataFrame({"a": np.array(a, dtype="int64")})
+        else:
+            df = pd.DataFrame({"a": np.array(a, dtype="int64")}, index=pd.Index(ix, dtype="int64", name="ix"))
+        path = os.path.join(d, "root", "i%d.parquet" % i)
+        os.makedirs(os.path.dirname(path), exist_ok=True)
+        fastparquet.write(path, df)
+        files.append((path, a, ix))
+    sigs = {}
+    detail = [""]
+    datasets = nontriv = 0
+
+    def bad(symptom, msg, **extra):
+        s = {"shape": "index", "kind": kind, "entry": entry, "symptom": symptom}
+        s.update(extra)
+        sigs.setdefault(repr(sorted(s.items())), s)
+        detail[0] = detail[0] or msg
+
+    for n in range(1, p["maxlen"] + 1):
+        for lst in itertools.permutations(range(4), n):
+            what = "index=%s %s files=%r" % (kind, entry, list(lst))
+            paths = [files[i][0] for i in lst]
+            try:
+                if entry == "paths":
+                    pf = fastparquet.ParquetFile(paths)
+                else:
+                    for f in ("_metadata", "_common_metadata"):
+                        try:
+                            os.unlink(os.path.join(d, "root", f))
+                        except OSError:
+                            pass
+                    pf = fastparquet.ParquetFile(writer.merge(paths).fn)
+                df = pf.to_pandas()
+                got = O.series_to_list(df["a"])
+                gix = [int(x) for x in df.index]
+            except Exception as e:
+                bad("open_raised", "%s: %s: %s" % (what, type(e).__name__, str(e)[:150]), exc=type(e).__name__,
+                    nfiles=len(lst))
+                continue
+            datasets += 1
+            exp = [v for i in lst for v in files[i][1]]
+            nontriv += bool(exp)
+            if got != exp:
+                bad("content", "%s: a=%r, expected %r" % (what, got, exp))
+                continue
+            expix = list(range(len(exp))) if kind == "range" else [v for i in lst for v in files[i][2]]
+            if gix != expix or (kind == "stored" and exp and df.index.name != "ix"):
+                bad("index", "%s: index %r (name %r), expected %r" % (what, gix[:10], df.index.name, expix[:10]))
+    ok = not sigs
+    return {"ok": ok, "outcome": "concatenation" if ok else "differs", "nontrivial": nontriv > 0,
+            "counts": {"datasets": datasets, "with_rows": nontriv}, "sig": list(sigs.values()) or None, "detail": detail[0]}
+
+
+def run_footer(p):
+    """the fast path reads the last int(1.4 * footer of the first file) bytes of every other file and fetches again
+    when a footer does not fit: a later file whose footer + 8 lies -2..+10 bytes around that size"""
+    import os
+    import pandas as pd
+    import fastparquet
+    from mc.scratch import scratch
+    from mc import oracles as O
+    d = scratch()
+    files = make_files(d, "flat")
+    A, C = files[0], files[1]
+    size = int(1.4 * fastparquet.ParquetFile(A[0])._head_size)
+    rowsB = [(21, "p", "u"), (22, None, "v")]
+    dfB = pd.DataFrame({"a": pd.Series([r[0] for r in rowsB], dtype="int64"),
+                        "s": pd.Series([r[1] for r in rowsB], dtype=object),
+                        "c": pd.Categorical([r[2] for r in rowsB], categories=["u", "v"])})
+    sigs = {}
+    detail = [""]
+    datasets = hit = 0
+    for delta in range(-2, 11):
+        path = os.path.join(d, "root", "b%+d.parquet" % delta)
+        npad, got = 0, None
+        for _ in range(8):
+            fastparquet.write(path, dfB, write_index=False, custom_metadata={"pad": "x" * npad})
+            got = fastparquet.ParquetFile(path)._head_size + 8 - size
+            if got == delta:
+                break
+            npad = max(0, npad + (delta - got))
+        if got != delta:
+            continue       # a length prefix changed width just here: this distance cannot be produced
+        hit += 1
+        for lst in ([A, (path, rowsB), C], [A, C, (path, rowsB)], [C, A, (path, rowsB)]):
+            what = "footer + 8 = fetch size %+d, list %r" % (delta, [os.path.basename(x[0]) for x in lst])
+            try:
+                pf = fastparquet.ParquetFile([x[0] for x in lst])
+                rows, _, _ = read_rows(pf, [])
+            except Exception as e:
+                s = {"shape": "footer", "symptom": "open_raised", "exc": type(e).__name__, "delta": delta}
+                sigs.setdefault(repr(sorted(s.items())), s)
+                detail[0] = detail[0] or "%s: %s: %s" % (what, type(e).__name__, str(e)[:150])
+                continue
+            datasets += 1
+            exp = [r for x in lst for r in x[1]]
+            if rows != exp or pf.count() != len(exp):
+                s = {"shape": "footer", "symptom": "content", "delta": delta}
+                sigs.setdefault(repr(sorted(s.items())), s)
+                detail[0] = detail[0] or "%s: rows %r, expected %r" % (what, rows, exp)
+    ok = not sigs
+    return {"ok": ok, "outcome": "concatenation" if ok else "differs", "nontrivial": hit >= 10,
+            "counts": {"datasets": datasets, "footer_distances": hit}, "sig": list(sigs.values()) or None, "detail": detail[0]}
+
+
+def run_memfs(p):
+    """the same files on fsspec's memory file-system, named '/x', 'x' and 'memory://x'"""
+    import os
+    import fsspec
+    import fastparquet
+    from mc.scratch import scratch
+    d = scratch()
+    files = make_files(d, "hive")
+    m = fsspec.filesystem("memory")
+    top = "/c14-%d" % os.getpid()
+    try:
+        m.rm(top, recursive=True)
+    except Exception:
+        pass
+    sigs = {}
+    detail = [""]
+    datasets = nontriv = 0
+    try:
+        mpaths = []
+        for path, rows, keys in files:
+            mp = top + "/root/" + os.path.relpath(path, os.path.join(d, "root"))
+            with open(path, "rb") as f:
+                m.pipe_file(mp, f.read())
+            mpaths.append(mp)
+        spell = {"slash": lambda x: x, "noslash": lambda x: x.lstrip("/"), "url": lambda x: "memory://" + x.lstrip("/")}
+        lists = []
+        for n in range(1, p["maxlen"] + 1):
+            lists += list(itertools.permutations(range(5), n))
+        for spname, spf in sorted(spell.items()):
+            for how in ("fs", "open_with"):
+                for root_mode in ("inferred", "given"):
+                    if how == "open_with" and root_mode == "given":
+                        continue
+                    for lst in lists:
+                        what = "memory fs, names %s, %s=, root %s, files %r" % (spname, how, root_mode, list(lst))
+                        base = {"shape": "memfs", "spell": spname, "how": how, "root": root_mode,
+                                "path": "fast" if len(lst) >= 3 else "legacy"}
+                        kw = {"fs": m} if how == "fs" else {"open_with": m.open}
+                        if root_mode == "given":
+                            kw["root"] = spf(top + "/root")
+                        try:
+                            pf = fastparquet.ParquetFile([spf(mpaths[i]) for i in lst], **kw)
+                            rows, keys, df = read_rows(pf, ["k"])
+                        except Exception as e:
+                            s = dict(base, symptom="open_raised", exc=type(e).__name__)
+                            sigs.setdefault(repr(sorted(s.items())), s)
+                            detail[0] = detail[0] or "%s: %s: %s" % (what, type(e).__name__, str(e)[:150])
+                            continue
+                        datasets += 1
+                        exp = [r for i in lst for r in files[i][1]]
+                        nontriv += bool(exp)
+                        if rows != exp or pf.count() != len(exp):
+                            s = dict(base, symptom="content")
+                            sigs.setdefault(repr(sorted(s.items())), s)
+                            detail[0] = detail[0] or "%s: rows %r, expected %r" % (what, rows[:8], exp[:8])
+                            continue
+                        distinct_dirs = len({files[i][2][0] for i in lst if files[i][1]})
+                        if exp and (root_mode == "given" or distinct_dirs >= 2):
+                            expk = [files[i][2][0] for i in lst for r in files[i][1]]
+                            if keys[0] != expk:
+                                s = dict(base, symptom="partition_column")
+                                sigs.setdefault(repr(sorted(s.items())), s)
+                                detail[0] = detail[0] or "%s: k=%r, directories say %r" % (what, keys[0], expk)
+    finally:
+        try:
+            m.rm(top, recursive=True)
+        except Exception:
+            pass
+    ok = not sigs
+    return {"ok": ok, "outcome": "concatenation" if ok else "differs", "nontrivial": nontriv > 0,
+            "counts": {"datasets": datasets, "with_rows": nontriv}, "sig": list(sigs.values()) or None, "detail": detail[0]}
+
+
 LEVEL_TEXT = ("Bounded-exhaustive lattice: every ordered list of up to 3 (quick) / 4 (thorough) of five single files with "
-              "different row counts, row-group counts, codecs and categorical label sets, in flat / hive / drill "
-              "directory shapes, opened through five entry points with and without verification and explicit root "
-              "(covering both the legacy and the footer-gathering code path for every shape); the result is compared "
-              "with the concatenation of the individual reads.")
+              "different row counts, row-group counts, codecs and categorical label sets (one with a NULL), in flat / hive / drill "
+              "directory shapes of one and two levels, opened through six entry points with and without verification, with the root "
+              "inferred or given (also with a trailing slash), the paths spelled absolute, relative, './'-prefixed or bare, on the "
+              "local and the memory file-system (covering both the legacy and the footer-gathering code path for every shape); "
+              "directories with stray files and with every subset of the files; plain, partitioned and categorical sub-datasets; "
+              "seven kinds of schema-incompatible files at every position through five entry points; label unions beyond the code "
+              "width of each file; default and stored index; footer sizes around the tail-fetch size. The result is compared "
+              "with the concatenation of the rows written (values, counts incl. the footer's num_rows, dtypes, index, partition "
+              "columns), and the summary files merge() writes are decoded by the spec-level reader.")
 LEVEL_NOTE = ("Trusted: pandas value extraction. Lists do not repeat a path; partition columns judged under the documented "
-              "root-inference rule.")
-TECHNIQUE = "bounded exhaustive enumeration of ordered file lists x directory shapes x entry points vs concatenation of single reads"
+              "root-inference rule; files differing only in pandas-level typing are not expected to be rejected.")
+TECHNIQUE = "bounded exhaustive enumeration of ordered file lists x directory shapes x entry points x path spellings vs concatenation of the rows written"
